@@ -123,7 +123,7 @@ def lookups(cx: Ctx, w: World, r: Obj, expect, op, inp):
     cx.ob("C14.lookup", not problems, op, inp, "; ".join(problems[:3]))
 
 
-def independent(cx, w, r, recv, arg, op, inp, la, lb):
+def independent(cx, w, r, recv, arg, op, inp, la, lb, redo=None, exp=None):
     ok = True
     msg = ""
     if r is recv or (arg is not None and r is arg):
@@ -138,6 +138,16 @@ def independent(cx, w, r, recv, arg, op, inp, la, lb):
         ch = w.changed(before)
         if ch:
             ok, msg = False, "editing the result in place changed an operand: " + "; ".join(ch)
+        elif redo is not None:
+            # ... nor any later result: the same operation on the same operands gives what it gave before
+            k2, r2 = run_guarded(redo)
+            if k2 != "ok" or not isinstance(r2, Obj) or w.letters(r2) != tuple(exp):
+                got = w.letters(r2) if k2 == "ok" and isinstance(r2, Obj) else k2
+                ok, msg = False, f"after an earlier result of the same operation was edited in place, the operation now gives {got} instead of {tuple(exp)} (results share state)"
+            else:
+                k3, e3 = run_guarded(lambda: w.it.call(w.it.get_attr(w.DimensionSet, "empty"), [], {}))
+                if k3 == "ok" and isinstance(e3, Obj) and w.letters(e3) != ():
+                    ok, msg = False, f"DimensionSet.empty() now holds {w.letters(e3)}"
     cx.ob("C14.independent-result", ok, op, inp, msg)
 
 
@@ -176,7 +186,7 @@ def run_pair_ops(cx: Ctx, A, B):
             cx.ob("C14.operator-result", got == exp, op, inp, f"letters {got}, ordered-set model gives {exp}")
             if got == exp:
                 lookups(cx, w, r, exp, op, inp)
-                independent(cx, w, r, a, b, op, inp, la, lb)
+                independent(cx, w, r, a, b, op, inp, la, lb, redo=lambda: w.it.call_method(a, op, b), exp=exp)
         ch = w.changed(snaps) if kind != "ok" or exp == "RAISE" else []
         if kind == "ok" and exp != "RAISE":
             pass   # operands were probed by `independent`
@@ -224,6 +234,50 @@ def run_unary(cx: Ctx, A):
     if A:
         kind, r = run_guarded(lambda: w.it.call_method(a, "get_subset", ("z",)))
         cx.ob("C14.producer-result", kind == "raise", "get_subset", {"self": list(A), "args": ["z"]}, "unknown dimension accepted")
+
+
+def run_empty_dimension(cx: Ctx, A):
+    """boundary size: a set that also holds a dimension WITHOUT items - it is a dimension like any other"""
+    from ..interp import ItemList as _IL
+    w = World(cx.prog, "concrete")
+    it = w.it
+    e = it.construct(w.Dimension, [], dict(name="ee", letter="e", items=_IL([])))
+    dims = [w.dim(l) for l in A] + [e]
+    s = it.construct(w.DimensionSet, [], dict(dim_list=list(dims)))
+    inp = {"self": list(A) + ["e (a dimension with no items)"]}
+    problems = []
+    for key in ("e", "ee"):
+        k, v = run_guarded(lambda: it.call_method(s, "__getitem__", key))
+        if k != "ok" or v is not e:
+            problems.append(f"set['{key}'] -> {k}")
+        k, v = run_guarded(lambda: it.call_method(s, "__contains__", key))
+        if k != "ok" or not v:
+            problems.append(f"'{key}' in set -> {v if k == 'ok' else k}")
+        k, v = run_guarded(lambda: it.call_method(s, "index", key))
+        if k != "ok" or int(v) != len(A):
+            problems.append(f"index('{key}') -> {v if k == 'ok' else k}")
+        k, v = run_guarded(lambda: it.call_method(s, "size", key))
+        if k != "ok" or int(v) != 0:
+            problems.append(f"size('{key}') -> {v if k == 'ok' else k}")
+        k, v = run_guarded(lambda: it.call_method(s, "get_subset", (key,)))
+        if k != "ok" or not isinstance(v, Obj) or w.letters(v) != ("e",):
+            problems.append(f"get_subset(('{key}',)) -> {k}")
+        k, v = run_guarded(lambda: it.call_method(s, "drop", key))
+        if k != "ok" or not isinstance(v, Obj) or w.letters(v) != tuple(A):
+            problems.append(f"drop('{key}') -> {k}")
+    k, v = run_guarded(lambda: it.get_attr(s, "shape"))
+    if k != "ok" or len(v) != len(A) + 1 or int(v[-1]) != 0:
+        problems.append(f"shape -> {v if k == 'ok' else k}")
+    other = it.construct(w.DimensionSet, [], dict(dim_list=[e]))
+    for op, exp in (("__and__", ("e",)), ("__sub__", tuple(A)), ("__or__", tuple(A) + ("e",))):
+        k, v = run_guarded(lambda: it.call_method(s, op, other))
+        if k != "ok" or not isinstance(v, Obj) or w.letters(v) != exp:
+            problems.append(f"{op} with the set holding only that dimension -> {w.letters(v) if k == 'ok' and isinstance(v, Obj) else k}, expected {exp}")
+    k, v = run_guarded(lambda: it.call_method(s, "__add__", other))
+    if k != "raise" or not v.isa("ValueError"):
+        problems.append(f"+ with an overlapping set -> {k} {getattr(v, 'exc_name', '')} (the overlap must be refused)")
+    cx.rep.evaluations += 1
+    cx.ob("C14.lookup", not problems, "__getitem__", inp, "; ".join(problems[:4]))
 
 
 def run_mutators(cx: Ctx, A):
@@ -363,6 +417,8 @@ def work(prog, rep, chunk):
                 run_pair_ops(cx, A, B)
             run_unary(cx, A)
             run_mutators(cx, A)
+            if len(A) <= 2:
+                run_empty_dimension(cx, A)
         if () in lists:
             constructor_uniqueness(cx)
     except TaintAbort as e:
